@@ -8,6 +8,7 @@ package main
 // janitor.afterScan yield point. Time passes through VerifShiftClock.
 
 import (
+	"path/filepath"
 	"context"
 	"errors"
 	"fmt"
@@ -470,9 +471,38 @@ func init() {
 						return withSnap("limit-not-followed")
 					}
 					return withSnap("limit-set")
+				case "setbudget": // pct : the memory budget setting changes at run time (memory backend); a non-zero budget is
+					// always far above the limits used here, so the effective limit stays min(max_cache_size, budget) = max_cache_size
+					pct, _ := strconv.Atoi(f[2])
+					mc, isMem := s.c.(interface{ VerifMemoryCap() int64 })
+					if !isMem || pct == s.pct || pct == 0 || s.pct == 0 {
+						return withSnap("budget-set")
+					}
+					before := mc.VerifMemoryCap()
+					s.pct = pct
+					s.cfg.Cache.Memory.MemoryBudgetPercent.Overwrite(pct)
+					deadline := time.Now().Add(2 * time.Second)
+					for mc.VerifMemoryCap() == before && time.Now().Before(deadline) {
+						time.Sleep(50 * time.Microsecond)
+					}
+					if mc.VerifMemoryCap() == before {
+						return withSnap("budget-not-followed")
+					}
+					o.Count("setbudget:applied")
+					return withSnap("budget-set")
 				case "reopen":
 					// abandon the cache object (no Destroy bookkeeping is relied on) and start over the same directory
 					s.destroy()
+					if len(f) > 2 && f[2] == "litter" && s.backend == "file" {
+						// a dirty directory: what a crash in the middle of a store, an older run or an operator leaves behind.
+						// A restart must not count, return or keep any of it.
+						os.MkdirAll(s.dir, 0o755)
+						os.WriteFile(filepath.Join(s.dir, s.keys[0].Hex), []byte("stale!!"), 0o644)
+						os.WriteFile(filepath.Join(s.dir, s.keys[len(s.keys)-1].Hex+".tmp-1234567"), []byte("abandoned-tmp"), 0o644)
+						os.WriteFile(filepath.Join(s.dir, cache.FromString("not-in-the-universe").Hex), []byte("x"), 0o644)
+						os.WriteFile(filepath.Join(s.dir, "notes.txt"), []byte("abc"), 0o644)
+						o.Count("reopen:litter")
+					}
 					s.open()
 					return withSnap("reopened")
 				}
@@ -606,8 +636,16 @@ func genCacheTrace(c runCfg, o *Out, emit func(...string)) {
 				emit("ct", "ensure")
 			case x < 97:
 				emit("ct", "setlimit", itoa([]int{100, 250, 400, 1000}[r.Intn(4)]))
+				if r.Chance(40) {
+					// ... followed by a change of the OTHER setting the effective limit is computed from
+					emit("ct", "setbudget", itoa([]int{10, 50, 75, 90}[r.Intn(4)]))
+				}
 			case x < 98:
-				emit("ct", "reopen")
+				if r.Bool() {
+					emit("ct", "reopen", "litter")
+				} else {
+					emit("ct", "reopen")
+				}
 				openH = nil
 				nextH = 0
 			default:
